@@ -526,6 +526,10 @@ fn layout_attrs(items: Vec<String>, layout: Layout, indent: &str, syntax: &[Stri
     };
     match layout {
         Layout::Single => wrap(items.join(", ")),
+        Layout::Split if syntax.iter().any(|x| x == "interleaved-foreign") => {
+            // a non-strum attribute BETWEEN the strum attributes of one variant (they are not adjacent)
+            items.iter().map(|i| wrap(i.clone())).collect::<Vec<_>>().join(&format!("{}#[allow(dead_code)]\n", indent))
+        }
         Layout::Split => items.iter().map(|i| wrap(i.clone())).collect(),
         Layout::Reversed => {
             let mut r = items;
